@@ -35,7 +35,7 @@ ASSUMPTIONS = {
             'array qualities with a base measure are not generated (only the dict form documents the base measure as a measure)'],
 }
 TIERS = {
-    'C20': {'quick': dict(runs=16000, budget_s=120, hashseeds=4, minimise_s=45),
+    'C20': {'quick': dict(runs=32000, budget_s=300, hashseeds=4, minimise_s=45),
             'thorough': dict(runs=None, budget_s=420, hashseeds=16, minimise_s=120)},
 }
 RUN_LIMIT_S = {'C20': 30}
